@@ -81,3 +81,80 @@ func VF_C09_SkipList()     { scenario(index_constants.IndexKindSkipList, 1) }
 func VF_C09_UniqSkipList() { scenario(index_constants.IndexKindUniqSkipList, 1) }
 func VF_C09_NoIndex()      { scenario(index_constants.IndexKindInvalid, 1) }
 func VF_C09_SkipList2()    { scenario(index_constants.IndexKindSkipList, 2) }
+
+// Page recycling across restarts: a hash join deallocates its temporary page, the next table takes that page
+// id from the reusable list (ReusePage is logged), the database is shut down and reopened twice with new
+// tables created after each reopen. A page that is in use must not be handed out again after a restart.
+func VF_C09_Recycle() {
+	r := sysx.OpenReal("vfc09", 200)
+	cols := func() []sysx.ColDef {
+		return []sysx.ColDef{{"a", types.Integer, index_constants.IndexKindInvalid}, {"tag", types.Integer, index_constants.IndexKindInvalid}}
+	}
+	model := map[string][]row{}
+	var names []string
+	ins := func(t string, x row) {
+		_, _, ab := r.Auto(sysx.Insert(t, []string{"a", "tag"}, []types.Value{types.NewInteger(x.a), types.NewInteger(x.tag)}))
+		vf.Assert(!ab, "insert is not aborted")
+		model[t] = append(model[t], x)
+	}
+	mk := func(t string, tag int32) {
+		r.CreateTable(t, cols())
+		names = append(names, t)
+		a := vf.I32()
+		vf.Assume(a != 2147483647 && a != -2147483648)
+		ins(t, row{a, tag})
+	}
+	check := func(what string) {
+		for _, t := range names {
+			rows, sc, ab := r.SelectAll(t)
+			vf.Assert(!ab, what+": scan is not aborted")
+			vf.Assert(len(rows) == len(model[t]), what+": every table has the rows committed into it, no more")
+			for _, x := range model[t] {
+				n := 0
+				for _, got := range rows {
+					if got.GetValue(sc, 0).ToInteger() == x.a && got.GetValue(sc, 1).ToInteger() == x.tag {
+						n++
+					}
+				}
+				vf.Assert(n >= 1, what+": every committed row is found with its values")
+			}
+		}
+		vf.Cover("c09.recycle." + what)
+	}
+	mk("t1", 1)
+	mk("t2", 2)
+	// two wide tables whose hash join needs two temporary pages (three ~1.5 KB rows on the build side)
+	wcols := []sysx.ColDef{{"a", types.Integer, index_constants.IndexKindInvalid}, {"w", types.Varchar, index_constants.IndexKindInvalid}}
+	r.CreateTable("w1", wcols)
+	r.CreateTable("w2", wcols)
+	wide := make([]byte, 1500)
+	for i := range wide {
+		wide[i] = 'w'
+	}
+	for i := 0; i < 3; i++ {
+		for _, t := range []string{"w1", "w2"} {
+			_, _, ab := r.Auto(sysx.Insert(t, []string{"a", "w"}, []types.Value{types.NewInteger(int32(i)), types.NewVarchar(string(wide))}))
+			vf.Assert(!ab, "insert is not aborted")
+		}
+	}
+	before := len(r.Shi.GetBufferPoolManager().GetReusablePageIDs())
+	jr, _, ab := r.Auto(sysx.SelectJoin("w1", "w2", [][2]string{{"w1", "w"}, {"w2", "w"}}, "w1.a", "w2.a", nil))
+	vf.Assert(!ab && len(jr) == 3, "join is not aborted and returns the three pairs")
+	freed := len(r.Shi.GetBufferPoolManager().GetReusablePageIDs()) - before
+	if freed >= 2 {
+		vf.Cover("c09.recycle.pages-deallocated")
+	}
+	mk("t3", 3) // takes one of the deallocated pages
+	if len(r.Shi.GetBufferPoolManager().GetReusablePageIDs()) == before+freed-1 {
+		vf.Cover("c09.recycle.page-reused")
+	}
+	check("before shutdown")
+	for i := 0; i < 2; i++ {
+		r.Sdb.Shutdown()
+		r = sysx.OpenReal("vfc09", 200)
+		check("after reopen")
+		mk("u"+string(rune('1'+i)), int32(10+i)) // pages allocated after the restart
+		ins("t1", row{int32(100 + i), int32(20 + i)})
+		check("after reopen and new table")
+	}
+}
